@@ -441,7 +441,35 @@ func (s *genState) dispatch(i, depth int, must, guarded bool) *Expr {
 	for j := 0; j < n; j++ {
 		lead := &Expr{K: KLit, Runes: []rune{perm[j]}}
 		alt := &Expr{K: KSeq}
-		switch k := rapid.IntRange(0, 16).Draw(t, "dprefix"); {
+		switch k := rapid.IntRange(0, 20).Draw(t, "dprefix"); {
+		case k == 17:
+			// a class that names a member twice ([aa], [a-cb], [ba-c]): the number of members
+			// written is not the number of characters it stands for
+			w := rune(rapid.IntRange(0, 2).Draw(t, "ovw"))
+			in := perm[j] + rune(rapid.IntRange(0, int(w)).Draw(t, "ovin"))
+			items := []Item{{perm[j], perm[j] + w}, {in, in}}
+			if rapid.Bool().Draw(t, "ovfirst") {
+				items[0], items[1] = items[1], items[0]
+			}
+			lead = &Expr{K: KClass, Items: items}
+		case k >= 18:
+			// such a class at the head of a nested choice whose sibling starts with another
+			// leading character: ([a-cb] 'x' / 'd' 'y') 'z'
+			// (the sibling's character is one no other alternative of the choice starts with,
+			// and the class stands for one character, so that the first-character sets of the
+			// alternatives stay disjoint and the choice really becomes a switch)
+			other := perm[len(perm)-1]
+			cls := &Expr{K: KClass, Items: []Item{{perm[j], perm[j]}, {perm[j], perm[j]}}}
+			if rapid.Bool().Draw(t, "ov2range") {
+				cls = &Expr{K: KClass, Items: []Item{{perm[j], perm[j]}, {perm[j], perm[j]}, {perm[j], perm[j]}}}
+			}
+			lead = &Expr{K: KAlt, Kids: []*Expr{
+				Seq(cls, &Expr{K: KLit, Runes: []rune{'x'}}),
+				Seq(&Expr{K: KLit, Runes: []rune{other}}, &Expr{K: KLit, Runes: []rune{'y'}}),
+			}}
+			if rapid.Bool().Draw(t, "ov2second") {
+				lead.Kids = append(lead.Kids, Seq(&Expr{K: KLit, Runes: []rune{perm[len(perm)-2]}}, &Expr{K: KLit, Runes: []rune{'z'}}))
+			}
 		case k == 0:
 			alt.Kids = append(alt.Kids, Un(KAnd, small("pa")))
 		case k == 1:
